@@ -107,6 +107,31 @@ def krome_line(r: dict, nre=3, npr=5, tmin_s=None, tmax_s=None) -> str:
     return ",".join(f)
 
 
+def krome_line_cols(r: dict, cols: list[str], tmin_s=None, tmax_s=None) -> str:
+    """A KROME data line for an arbitrary @format column list (tokens idx / R / P / Tmin / Tmax / rate, any case, any order;
+    columns may be absent)."""
+    res, prods = list(r["reactants"]), list(r["products"])
+    out = []
+    for c in cols:
+        c = c.lower()
+        if c == "idx":
+            out.append(str(r["idx"]))
+        elif c == "r":
+            out.append(res.pop(0) if res else "")
+        elif c == "p":
+            out.append(prods.pop(0) if prods else "")
+        elif c == "tmin":
+            out.append(tmin_s if tmin_s is not None else _num(r["tmin"]))
+        elif c == "tmax":
+            out.append(tmax_s if tmax_s is not None else _num(r["tmax"]))
+        elif c == "rate":
+            out.append(r["rate"])
+        else:
+            raise ValueError(c)
+    assert not res and not prods
+    return ",".join(out)
+
+
 # ------------------------------------------------------------------ native naunet exchange format
 # idx(5),3 reactants(12),5 products(12),alpha,beta,gamma(10.3e),Tmin,Tmax(9.2f),type(4),source(8)
 def naunet_line(r: dict) -> str:
